@@ -360,6 +360,47 @@ fn shared_translator_with_failures(seed: u64, i: usize, acc: &mut Acc) {
     }
 }
 
+/// MessagePack's 32-bit float spelling of a number, MessagePack to MessagePack: the value that comes out -
+/// whichever width it is written in - is the identical binary64 value (every binary32 is one). (To the text
+/// formats xt writes such a value with binary32 digits, which is the recorded finding
+/// C06-f32-text-not-fixed-point seen from another side; those pairs are not judged here.)
+fn float32_spellings(seed: u64, i: usize, acc: &mut Acc) {
+    let mut rng = Rng::derive(seed, 0xc01a, i as u64);
+    let specials: [f32; 12] = [0.1, 0.2, 0.3, 1.1, f32::MAX, f32::MIN_POSITIVE, 1.0e-45, 3.4028233e38, 16777217.0, 0.33333334, 2.5517221e14, -0.7];
+    let vals: Vec<f32> = (0..rng.range(1, 6)).map(|_| if rng.chance(1, 2) { *rng.pick(&specials) } else { f32::from_bits(rng.next() as u32) }).filter(|v| v.is_finite()).collect();
+    if vals.is_empty() {
+        return;
+    }
+    let doc = Val::Map(vec![(Val::s("k"), Val::Seq(vals.iter().map(|v| Val::F32(v.to_bits())).collect())), (Val::s("n"), Val::Int(vals.len() as i128))]);
+    let mut feats = Feats::default();
+    let plain = rng.chance(1, 2);
+    let bytes = spell(Fmt::Msgpack, &doc, &mut rng, &mut feats, plain);
+    for (mode, from) in [(Mode::Slice, Some(Fmt::Msgpack)), (Mode::Reader(Sched::Fixed(3)), Some(Fmt::Msgpack)), (Mode::Slice, None), (Mode::Reader(Sched::All), None)] {
+        acc.evals += 1;
+        acc.count("float32_spellings_msgpack_to_msgpack");
+        let o = run_mode(&bytes, &mode, from, Fmt::Msgpack);
+        let got: Option<Vec<f64>> = if o.verdict.is_ok() {
+            match crate::read::msgpack::read_all(&o.out) {
+                Ok(d) if d.len() == 1 => match &d[0] {
+                    Val::Map(m) if m.len() == 2 => match &m[0].1 {
+                        Val::Seq(xs) => xs.iter().map(|x| match x { Val::F32(b) => Some(f32::from_bits(*b) as f64), Val::Float(b) => Some(f64::from_bits(*b)), _ => None }).collect(),
+                        _ => None,
+                    },
+                    _ => None,
+                },
+                _ => None,
+            }
+        } else {
+            None
+        };
+        let want: Vec<f64> = vals.iter().map(|v| *v as f64).collect();
+        if got.as_ref().map(|g| g.len() == want.len() && g.iter().zip(&want).all(|(a, b)| a.to_bits() == b.to_bits())) != Some(true) {
+            acc.violation(Violation { sig: "msgpack->msgpack: a number spelled as a 32-bit float comes out with another binary64 value".into(), case: json!({"part": "float32", "seed": seed, "index": i}), observed: format!("{}; values {:?}", o.verdict.show(), got), expected: format!("{:?}", want) });
+            return;
+        }
+    }
+}
+
 fn detected_as(input: &[u8]) -> Option<Fmt> {
     xt::verif::detect_slice(input).ok().flatten().map(Fmt::from_xt)
 }
@@ -442,6 +483,7 @@ pub fn run(ctx: &Ctx) -> i32 {
         if !heavy {
             shared_translator_batch(seed, i, &base, acc);
             shared_translator_with_failures(seed, i, acc);
+            float32_spellings(seed, i, acc);
         }
         // non-finite floats for the formats that have them
         if i % 4 == 0 {
@@ -463,7 +505,7 @@ pub fn run(ctx: &Ctx) -> i32 {
         }
     });
     let rule = format!(
-        "{} generated documents of the common model (scalar pools aimed at type look-alike strings, YAML indicators, control/BOM/non-character/astral code points, integer boundaries of every width, 17-digit and special floats; depth up to 64; wide collections at MessagePack header thresholds; every 150th document a 'heavy' one: 4 095..70 000 entries, or tens of KiB of multi-byte text) x 16 (source,target) pairs (TOML pairs on the TOML-representable restriction) x 3 spellings (1 conventional, 2 hostile; every third document's last YAML spelling re-encoded as UTF-16/32 with a byte order mark) x [slice, 1 scheduled reader] x [explicit, detected when the detect hook names the source format]; plus one batch per document of 2-3 documents in different source formats through ONE translator (detection where possible), each output document compared with its translation alone, and one batch of 3-5 calls on ONE translator in which some calls fail (input cut short, a stray byte, a reader that starts failing): every call must end, and write, exactly as on a fresh translator; oracle = independent reader of the target; distinct non-trivial = distinct documents containing >= 1 hostile-class scalar or depth >= 3",
+        "{} generated documents of the common model (scalar pools aimed at type look-alike strings, YAML indicators, control/BOM/non-character/astral code points, integer boundaries of every width, 17-digit and special floats; depth up to 64; wide collections at MessagePack header thresholds; every 150th document a 'heavy' one: 4 095..70 000 entries, or tens of KiB of multi-byte text) x 16 (source,target) pairs (TOML pairs on the TOML-representable restriction) x 3 spellings (1 conventional, 2 hostile; every third document's last YAML spelling re-encoded as UTF-16/32 with a byte order mark) x [slice, 1 scheduled reader] x [explicit, detected when the detect hook names the source format]; plus one batch per document of 2-3 documents in different source formats through ONE translator (detection where possible), each output document compared with its translation alone, and one batch of 3-5 calls on ONE translator in which some calls fail (input cut short, a stray byte, a reader that starts failing): every call must end, and write, exactly as on a fresh translator; per document one MessagePack document of numbers in the 32-bit float spelling, MessagePack to MessagePack (identical binary64 values); oracle = independent reader of the target; distinct non-trivial = distinct documents containing >= 1 hostile-class scalar or depth >= 3",
         n
     );
     ev::finish(
@@ -478,7 +520,7 @@ pub fn run(ctx: &Ctx) -> i32 {
             extra: serde_json::Map::new(),
             exhaustive: false,
             min_distinct: 200,
-            must_reach: vec![("heavy_documents".into(), 10), ("detected_runs".into(), 100), ("class_lookalike_strings".into(), 50), ("class_float_values".into(), 50), ("successful_calls_after_failed_calls".into(), 1000), ("shared_translator_batches".into(), 1000), ("yaml_spelled_in_utf16_or_utf32".into(), 500), ("interrupted_reader_ok".into(), 500), ("yaml_spelled_in_utf16_or_utf32_without_bom".into(), 100), ("shared_translator_batches_with_two_detections".into(), 100)],
+            must_reach: vec![("heavy_documents".into(), 10), ("detected_runs".into(), 100), ("class_lookalike_strings".into(), 50), ("class_float_values".into(), 50), ("successful_calls_after_failed_calls".into(), 1000), ("float32_spellings_msgpack_to_msgpack".into(), 1000), ("shared_translator_batches".into(), 1000), ("yaml_spelled_in_utf16_or_utf32".into(), 500), ("interrupted_reader_ok".into(), 500), ("yaml_spelled_in_utf16_or_utf32_without_bom".into(), 100), ("shared_translator_batches_with_two_detections".into(), 100)],
         },
         acc,
     )
@@ -486,6 +528,17 @@ pub fn run(ctx: &Ctx) -> i32 {
 
 pub fn replay(v: &Value) -> i32 {
     let c = &v["case"];
+    if c["part"].as_str() == Some("float32") {
+        let mut acc = Acc::default();
+        float32_spellings(c["seed"].as_u64().unwrap_or(0), c["index"].as_u64().unwrap_or(0) as usize, &mut acc);
+        return if acc.vio_count > 0 {
+            println!("VIOLATION property=C01 replay=<this file> (reproduced): {}", acc.violations[0].observed);
+            1
+        } else {
+            println!("not reproduced");
+            0
+        };
+    }
     if c["part"].as_str() == Some("shared_translator_with_failures") {
         let (Some(seed), Some(i)) = (c["seed"].as_u64(), c["index"].as_u64()) else { return 2 };
         let mut acc = Acc::default();
